@@ -69,6 +69,7 @@ const (
 	DevHook      = 6 // Arg: func() run right before a normal delivery (e.g. split)
 	DevDownReq   = 7 // store unreachable from now on for this client and command type: this and all later such requests fail undelivered
 	DevDownResp  = 8 // this request is applied but its answer is lost, and the store is unreachable afterwards (as DevDownReq)
+	DevAnswer    = 9 // Arg: func(*tikvrpc.Request) *tikvrpc.Response - the store answers this instead of handling the request (e.g. a non-retriable key error)
 )
 
 // LostMessage reports whether the deviation loses a request or a response.
@@ -98,6 +99,7 @@ type World struct {
 	Gen     int64        // sched.Gen() of the execution this world belongs to
 	Seq     atomic.Int64 // one event sequence for RPC records, TSO records and API-level history
 	TSOLog  []TSORecord
+	TickLog []TickRecord
 
 	// BeforeRPC, when set, runs right before a request is handed to the store (used by oracles that
 	// drive reads in the synchronous phase and inject topology changes at chosen RPC indices)
@@ -179,6 +181,14 @@ var CurrentOracle *Oracle
 func NewWorld(b Backend, n int, opts ...tikv.Option) *World {
 	w := &World{B: b, TSO: &Oracle{}, crashed: map[int]bool{}, down: map[string]bool{}, Gen: sched.Gen()}
 	CurrentOracle = w.TSO
+	sched.OnTick = func(label string) {
+		if sched.Gen() != w.Gen {
+			return
+		}
+		w.mu.Lock()
+		w.TickLog = append(w.TickLog, TickRecord{Seq: int(w.Seq.Add(1)), Label: label})
+		w.mu.Unlock()
+	}
 	if src, ok := b.(interface {
 		TSSource() func(int64) (int64, int64)
 	}); ok {
@@ -250,6 +260,20 @@ func (w *World) record(r RPCRecord) {
 	r.Seq = int(w.Seq.Add(1))
 	w.RPCLog = append(w.RPCLog, r)
 	w.mu.Unlock()
+}
+
+// TickRecord is one firing of a virtual ticker (e.g. a transaction's keep-alive ticker), placed in
+// the same sequence as the RPC and TSO records.
+type TickRecord struct {
+	Seq   int
+	Label string
+}
+
+// Ticks returns a copy of the ticker log.
+func (w *World) Ticks() []TickRecord {
+	w.mu.Lock()
+	defer w.mu.Unlock()
+	return append([]TickRecord(nil), w.TickLog...)
 }
 
 // TSORecord is one timestamp handed to a client.
@@ -332,6 +356,11 @@ func (s *seamRPC) SendRequest(ctx context.Context, addr string, req *tikvrpc.Req
 		rec.Resp, rec.Err = resp, err
 		s.c.W.record(rec)
 		return resp, err
+	case DevAnswer:
+		resp := d.Arg.(func(*tikvrpc.Request) *tikvrpc.Response)(req)
+		rec.Resp = resp
+		s.c.W.record(rec)
+		return resp, nil
 	case DevCrash:
 		s.c.W.Crash(s.c.ID)
 		s.c.W.record(rec)
